@@ -123,14 +123,16 @@ def run(tier, mode):
                 # ---- csv writers
                 for (nice_arg, nice_wire) in ((False, None), (True, True)) if r.random() < 0.7 else ((NICE_LIST(atts), NICE_LIST(atts)),):
                     for mode_ in ('w', 'a'):
-                        for pre_exists in (False, True):
+                        for pre_exists in (False, True, 'empty'):       # 'empty': a file that exists already but holds nothing (a header goes to NEW files only)
                             if r.random() < (0.5 if tier == 'quick' else 0.0) and not (mode_ == 'a' and not pre_exists):
                                 continue
                             for writer in ('tracts_to_csv', 'TractWriter'):
                                 fi += 1
                                 fp = os.path.join(scratch, f'f{fi}.csv')
                                 pre_rows = []
-                                if pre_exists:
+                                if pre_exists == 'empty':
+                                    open(fp, 'w').close()
+                                elif pre_exists:
                                     with open(fp, 'w', newline='') as f:
                                         csv.writer(f).writerow(['old', 'row'])
                                     pre_rows = [['old', 'row']] if mode_ == 'a' else []
@@ -194,9 +196,9 @@ def run(tier, mode):
                                     nice_w = None if nice_arg is False else nice_arg
                                     obs = got_rows[len(pre_rows):]
                                     if writer == 'tracts_to_csv':
-                                        rq = H.req('tracts_to_csv', wt, atts, pre_exists, mode_ == 'a', nice_w)
+                                        rq = H.req('tracts_to_csv', wt, atts, bool(pre_exists), mode_ == 'a', nice_w)
                                     else:
-                                        rq = H.req('tractwriter', wt, atts, pre_exists, mode_ == 'a', nice_w, hp, wp, uid)
+                                        rq = H.req('tractwriter', wt, atts, bool(pre_exists), mode_ == 'a', nice_w, hp, wp, uid)
                                     cases.append((rq, ('ROWS', obs), {'writer': writer, 'atts': atts, 'desc': di, 'mode': mode_}))
         # one writer used over several sessions (write, close, open, write): a new file gets its header once and every row of every session is kept
         for mode_ in ('w', 'a'):
